@@ -139,6 +139,18 @@ class Check(common.Check):
         msgs = [self.gen_msg(G, 1) for _ in range(G.choice([1, 1, 2, 3]))]
         return ['bind', L, msgs, G.choice([-1, -1, 0, len(msgs) - 1])]
 
+    def gen_sync(self, G):
+        """sync(latency, elements) on the NetAddr or through the bundling proxy of server.bind()"""
+        L = G.choice([None, 0, {'f': '0'}, {'f': '1/8'}, {'f': '1/4'}, {'f': '1'}, {'f': '-1'}])
+        els = [self.gen_msg(G, 1) for _ in range(G.choice([0, 1, 2]))]
+        return ['sync', G.choice(['addr', 'bind', 'bind']), L, els or None]
+
+    def gen_clump(self, G):
+        """a bundle over the UDP limit: `send_clumped_bundles` (every latency kind)"""
+        L = G.choice([None, None, 0, {'f': '0'}, {'f': '1/4'}, {'f': '1'}, {'f': '-1'}])
+        msg = [{'s': '/n_set'}, 1000, {'s': 'freq'}, {'f': '440'}]
+        return ['clump', L, G.choice([2400, 3000, 5000, 40]), msg]
+
     def gen_one(self, G):
         c = {'tempo': fr(G.choice([Fr(1, 2), Fr(1), Fr(2), Fr(4)])),
              'late': fr(G.choice([Fr(0), Fr(1, 1024), Fr(1, 64), Fr(1, 4), Fr(2)])),
@@ -149,6 +161,7 @@ class Check(common.Check):
             c['main'].append(['b', self.gen_bundle(G)] if r < 0.6 else self.gen_bind(G) if r < 0.75
                              else ['m', self.gen_msg(G)])
         for _ in range(G.choice([1, 1, 2, 3, 4])):
+            is_fn = G.random() < 0.25
             steps = []
             for _ in range(G.choice([1, 2, 3, 5, 8])):
                 r = G.random()
@@ -156,8 +169,10 @@ class Check(common.Check):
                     steps.append(['w', fr(G.choice([Fr(0), Fr(1, 8), Fr(1, 8), Fr(1, 4), Fr(1, 2), Fr(1), Fr(3, 8)]))])
                 elif r < 0.70:
                     steps.append(['b', self.gen_bundle(G)])
-                elif r < 0.80:
+                elif r < 0.78:
                     steps.append(self.gen_bind(G))
+                elif r < 0.80:
+                    steps.append(self.gen_sync(G) if (G.random() < 0.7 and not is_fn) else self.gen_clump(G))
                 elif r < 0.90:
                     # the same bundle object sent, a wait, sent again
                     b = self.gen_bundle(G, deep=True)
@@ -166,7 +181,7 @@ class Check(common.Check):
                     steps.append(['B', None])
                 else:
                     steps.append(['m', self.gen_msg(G)])
-            c['routines'].append({'fn': G.random() < 0.25, 'clock': G.choice('sst'), 'start': fr(G.choice([Fr(0), Fr(1, 8), Fr(1, 4), Fr(1), Fr(5, 4)])),
+            c['routines'].append({'fn': is_fn, 'clock': G.choice('sstaa'), 'start': fr(G.choice([Fr(0), Fr(1, 8), Fr(1, 4), Fr(1), Fr(5, 4)])),
                                   'steps': steps})
         return c
 
@@ -207,9 +222,65 @@ class Check(common.Check):
             kind = 'b'
         return kind, val
 
-    def model(self, cases):
-        outs = getattr(self, '_impl_outs', None)
-        raise NotImplementedError
+    SYNC_LAT = {'f': '1/4'}                  # server.latency used by the `sync` steps that go through bind()
+    PRE_MSG = [{'s': '/pre'}, 1]
+
+    @staticmethod
+    def step(case, who, k):
+        return (case['main'] if who == 'main' else case['routines'][who]['steps'])[k]
+
+    @staticmethod
+    def app_times(case, o, who):
+        """AppClock (RT) re-schedules from the physical present: the logical time of the j-th segment of
+        a task is (physical time at the end of segment j-1) + the delta it yielded there; the physical
+        times are the environment's choice (wake-up lateness) and are read from the run."""
+        r = case['routines'][who]
+        segs = [x for x in o['rt'].get('segs', []) if x['who'] == who]
+        waits = [F(x[1]) for x in r['steps'] if x[0] == 'w']
+        exp = [F(r['start'])]
+        for j, w_ in enumerate(waits):
+            if j < len(segs):
+                exp.append(F(segs[j]['now']) + w_)
+        return exp
+
+    def rt_base(self, case, o, who, k):
+        """logical time (relative to t0) of step k of task `who` in the RT run, from the script"""
+        if who == 'main':
+            return Fr(0)
+        r = case['routines'][who]
+        if r['clock'] == 'a':
+            j = sum(1 for x in r['steps'][:k] if x[0] == 'w')
+            exp = self.app_times(case, o, who)
+            return exp[j] if j < len(exp) else exp[-1]
+        dur = 1 / F(case['tempo']) if r['clock'] == 't' else 1
+        return (F(r['start']) + sum(F(x[1]) for x in r['steps'][:k] if x[0] == 'w')) * dur
+
+    def expand(self, case, o, rec, plan_counts=None):
+        """the bundles / messages a step denotes, in order: [(kind, value)]"""
+        st = self.step(case, rec['who'], rec['k'])
+        if st[0] == 'clump':
+            L, n, msg = st[1], st[2], st[3]
+            counts = plan_counts or [n]
+            secs_abs = float(F(o['rt']['t0']) + self.rt_base(case, o, rec['who'], rec['k']))
+            out, t = [], (None if L is None else float(lat(L)))
+            for cnt in counts:
+                if len(counts) > 1 and t is not None:
+                    t += 1e-9                     # "one nanosecond later each" (a binary64 addition)
+                if t is None:
+                    Lk = None
+                elif t < 0:
+                    Lk = {'f': fr(Fr(t))}
+                else:                             # the code adds the send time in binary64, then truncates
+                    Lk = {'f': fr(Fr(t + secs_abs) - Fr(secs_abs))}
+                out.append(('b', [Lk] + [msg] * cnt))
+            return out
+        if st[0] == 'sync':
+            via, L, elements = st[1], st[2], st[3]
+            last = rec['out'].split(',')[-1]
+            sid = int.from_bytes(bytes.fromhex(last[-8:]), 'big', signed=True) if not last.startswith(('EXC', 'sent')) else 0
+            b = [L] + list(elements or []) + [[{'s': '/sync'}, sid]]
+            return ([('b', [self.SYNC_LAT, self.PRE_MSG])] if via == 'bind' else []) + [('b', b)]
+        return [self.send_value(case, rec['who'], rec['k'])]
 
     def run_model(self, cases, impl_outs):
         """The Lean driver computes the send times from the script and every datagram / the score;
@@ -225,6 +296,12 @@ class Check(common.Check):
                     steps = ' '.join('W' + s[1] if s[0] == 'w' else 'S' for s in r['steps'])
                     p['times'][(mode, rid)] = len(lines)
                     lines.append(f'times {base} {dur} {r["start"]} {steps}')
+            p['plans'] = {}
+            for rec in o['rt']['sends']:
+                st = self.step(c, rec['who'], rec['k'])
+                if st[0] == 'clump':
+                    p['plans'][(rec['who'], rec['k'])] = len(lines)
+                    lines.append('plan ' + tok([st[3]] * st[2]))
             plan.append(p)
         head, err = common.run_driver('Sc3Verif/C07/Driver.lean', lines)
         if head is None:
@@ -237,15 +314,23 @@ class Check(common.Check):
             def secs(mode, who, k):
                 if who == 'main':
                     return t0 if mode == 'rt' else '0'
+                if mode == 'rt' and c['routines'][who]['clock'] == 'a':
+                    return fr(F(t0) + self.rt_base(c, o, who, k))       # drifting clock: see app_times
                 steps = c['routines'][who]['steps']
-                idx = sum(1 for s in steps[:k] if s[0] != 'w')
+                idx = sum(1 for s in steps[:k] if s[0] != 'w')      # (every non-wait step is an 'S' of `times`)
                 return head[p['times'][(mode, who)]].split()[1:][idx]
             for rec in o['rt']['sends']:
-                kind, val = self.send_value(c, rec['who'], rec['k'])
-                p['rt'].append(len(lines2))
-                lines2.append(f'rt{kind} {secs("rt", rec["who"], rec["k"])} {off} {tok(val)}')
+                counts = None
+                if (rec['who'], rec['k']) in p['plans']:
+                    ans = head[p['plans'][(rec['who'], rec['k'])]].split()
+                    counts = [int(x) for x in ans[1:]] if ans[0] == 'P' else None
+                idxs = []
+                for kind, val in self.expand(c, o, rec, counts):
+                    idxs.append(len(lines2))
+                    lines2.append(f'rt{kind} {secs("rt", rec["who"], rec["k"])} {off} {tok(val)}')
+                p['rt'].append(idxs)
             for rec in o['rt']['sends']:
-                if rec['out'].startswith('EXC') or rec['out'] == 'sent':
+                if rec['out'].startswith('EXC') or rec['out'] == 'sent' or ',' in rec['out']:
                     p['rcv'].append(None)
                 else:
                     p['rcv'].append(len(lines2))
@@ -276,8 +361,10 @@ class Check(common.Check):
         for c, o, p in zip(cases, impl_outs, plan):
             t0 = F(o['rt']['t0'])
             m = {'rt': [], 'rcv': [], 'nrt_sends': [], 'nrt': None}
-            for i in p['rt']:
-                m['rt'].append(body[i])
+            for idxs in p['rt']:
+                answers = [body[i] for i in idxs]
+                errs = [a for a in answers if not a.startswith('ok ')]
+                m['rt'].append(errs[0] if errs else 'ok ' + ','.join(a[3:] for a in answers))
             for i in p['rcv']:
                 if i is None:
                     m['rcv'].append(None)
@@ -380,6 +467,43 @@ class Check(common.Check):
                     return v
         return None
 
+    def check_multi(self, case, out, rec, st, base, off, where):
+        """steps that give several datagrams: an oversize bundle (clumps), sync(latency, elements)"""
+        if rec['out'].startswith('EXC') or rec['out'] == 'sent':
+            return {'what': f'{where}: {st[0]} step gave {rec["out"]}', 'signature': 'c07:refused'}
+        try:
+            pkts = [osc10.read_packet(bytes.fromhex(h)) for h in rec['out'].split(',')]
+        except osc10.Osc10Error as e:
+            return {'what': f'{where}: datagram is not OSC 1.0: {e}', 'signature': 'c07:osc10'}
+        if st[0] == 'clump':
+            L, n, msg = lat(st[1]), st[2], st[3]
+            if any(p[0] != 'bundle' for p in pkts) or sum(len(p[2]) for p in pkts) != n:
+                return {'what': f'{where}: the clumps do not carry the {n} elements of the bundle', 'signature': 'c07:clump'}
+            for j, p in enumerate(pkts):
+                if L is None or L < 0:
+                    if p[1] != 1:
+                        return {'what': f'{where}: clump {j} of a bundle with latency {st[1]} (immediately) carries '
+                                        f'timetag {p[1]} = {fr(Fr(p[1] - off, TWO32))} s', 'signature': 'c07:clump-stamp'}
+                else:
+                    ns = (j + 1) if len(pkts) > 1 else 0          # one nanosecond later each (documented)
+                    want = int((base + L + ns * Fr(1, 10 ** 9)) * TWO32) + off
+                    if abs(p[1] - want) > 2:
+                        return {'what': f'{where}: clump {j} of a bundle with latency {st[1]} sent at logical time '
+                                        f'{fr(base)} carries timetag {p[1]}, expected {want} (+-2)',
+                                'signature': 'c07:clump-stamp'}
+            return None
+        exp = self.expand(case, out, rec)
+        if len(exp) != len(pkts):
+            return {'what': f'{where}: sync gave {len(pkts)} datagrams, expected {len(exp)}', 'signature': 'c07:sync'}
+        for (kind, b), p in zip(exp, pkts):
+            v = self.check_rt_packet(p, b, base, off, where + '/sync')
+            if v:
+                return {'what': v, 'signature': 'c07:rt-stamp'}
+        last = pkts[-1][2][-1]
+        if last[0] != 'msg' or last[1] != b'/sync':
+            return {'what': f'{where}: the bundle of sync() does not end with /sync', 'signature': 'c07:sync'}
+        return None
+
     def expected_entry(self, b, base, in_routine):
         L = lat(b[0])
         t = (Fr(0) if (L is None or L < 0) else L) + (base if in_routine else 0)
@@ -434,12 +558,19 @@ class Check(common.Check):
         t0, off = F(rt['t0']), NTP_OFFSET
         # ---- real time ----
         for rec, rcv in zip(rt['sends'], rt['recv']):
-            kind, val = self.send_value(case, rec['who'], rec['k'])
-            base = self.logical(case, rec['who'], rec['k'], t0)
+            st = self.step(case, rec['who'], rec['k'])
+            base = t0 + self.rt_base(case, out, rec['who'], rec['k'])
             where = f'RT send {rec["who"]}#{rec["k"]}'
             if rec['who'] != 'main' and F(rec['secs']) + t0 != base:
-                return {'what': f'{where}: routine reads logical time {rec["secs"]}, script says {fr(base - t0)}',
+                return {'what': f'{where}: the task reads logical time {rec["secs"]}, it was scheduled for {fr(base - t0)} '
+                                '(script; on AppClock: physical end of its previous segment + the delta it yielded)',
                         'signature': 'c07:logical-time'}
+            if st[0] in ('clump', 'sync'):
+                v = self.check_multi(case, out, rec, st, base, off, where)
+                if v:
+                    return v
+                continue
+            kind, val = self.send_value(case, rec['who'], rec['k'])
             if kind == 'm':
                 continue
             ok = self.valid(val)
